@@ -298,7 +298,12 @@ def c02_function(st, cls, ast, path, f, kind, w, addr, leaf, info):
         tid = ld8(addr + 8)
         w.wf += [rel != -(2**63), tid >= 0, tid < len(leaf[2])]
     fs = FSolver(st, w.wf, f.name)
-    if fs.check() != "sat":
+    r0 = fs.check()
+    if r0 != "sat":
+        if r0 == "unsat" and any(is_index(p_) and 0 in [d for d in p_.cls._shape if d is not None] for p_ in path):
+            # an accessor that indexes a zero-length static axis has no in-range index: nothing to decide
+            st.extra["no_in_range_index"] = st.extra.get("no_in_range_index", 0) + 1
+            return
         st.notes.append(f"{f.name}: WF unsatisfiable or unknown -- vacuous")
         st.d["unknown"] += 1
         return
@@ -318,7 +323,12 @@ def c07_function(st, cls, ast, path, f, kind, w, addr, leaf, info, last_index):
         rel = ld8(addr)
         w.wf += [rel != -(2**63), BUFLO <= addr + rel, addr + rel < BUFHI]
     fs = FSolver(st, w.wf, f.name)
-    if fs.check() != "sat":
+    r0 = fs.check()
+    if r0 != "sat":
+        if r0 == "unsat" and any(is_index(p_) and 0 in [d for d in p_.cls._shape if d is not None] for p_ in path):
+            # an accessor that indexes a zero-length static axis has no in-range index: nothing to decide
+            st.extra["no_in_range_index"] = st.extra.get("no_in_range_index", 0) + 1
+            return
         st.notes.append(f"{f.name}: WF unsatisfiable or unknown -- vacuous")
         st.d["unknown"] += 1
         return
